@@ -441,6 +441,13 @@ pub(crate) fn add_int_combination<W, R, T>(
             if k > n{
                 return xerr(ManagedXError::new("k cannot be greater than n", rt)?);
             }
+            if k == 0{
+                // the only combination of zero items is the empty one
+                if i > 0{
+                    return xerr(ManagedXError::new("i too large", rt)?);
+                }
+                return Ok(manage_native!(XSequence::<W, R, T>::Empty, rt));
+            }
             let mut s_cutoff = binomial(n-1,k-1);
             let total = s_cutoff*n/k;
             if i >= total{
@@ -486,6 +493,13 @@ pub(crate) fn add_int_combination_with_replacement<W, R, T>(
 
             if k > n{
                 return xerr(ManagedXError::new("k cannot be greater than n", rt)?);
+            }
+            if k == 0{
+                // the only combination of zero items is the empty one
+                if i > 0{
+                    return xerr(ManagedXError::new("i too large", rt)?);
+                }
+                return Ok(manage_native!(XSequence::<W, R, T>::Empty, rt));
             }
             let mut s_cutoff = binomial(n+k-2,k-1);
             let total = (s_cutoff*(n+k-1))/k;
